@@ -782,6 +782,10 @@ fn c03_configs(rng: &mut Rng, len: usize, extents: &[usize], n: usize) -> Vec<Co
         PolSpec::PlusOne,
         PolSpec::DoubleUntilLimited(16, 1 << 40),
         PolSpec::Plus(3),
+        PolSpec::Times(3),
+        PolSpec::Times(4),
+        PolSpec::Plus(17),
+        PolSpec::JumpTo(40),
     ];
     let mut v = vec![];
     // the first configuration is the "natural" one: everything in one buffer
